@@ -272,6 +272,11 @@ def mutations(node, rng: random.Random) -> list[tuple[str, Callable[[], Any]]]:
         out.append(("_data", lambda: DictOfNamedArrays(
             constantdict({(k + "_r" if k == k0 else k): v for k, v in node._data.items()}),
             tags=node.tags)))
+        out.append(("_data", lambda: DictOfNamedArrays(
+            constantdict({**node._data, "zz_extra": node._data[k0]}), tags=node.tags)))
+        if len(node._data) >= 2:
+            out.append(("_data", lambda: DictOfNamedArrays(
+                constantdict({k: v for k, v in node._data.items() if k != k0}), tags=node.tags)))
         return out
     if "tags" in fields and not internal_tags:
         out.append(("tags", lambda: rep(node, tags=_toggle(node.tags, T))))
@@ -349,6 +354,10 @@ def mutations(node, rng: random.Random) -> list[tuple[str, Callable[[], Any]]]:
             out.append(("arrays", lambda: rep(node, arrays=tuple(reversed(node.arrays)))))
         out.append(("arrays", lambda: rep(node, arrays=(
             _fresh_like(node.arrays[0], "s"), *node.arrays[1:]))))
+        # another LENGTH: extension by an equal operand, proper prefix
+        out.append(("arrays", lambda: rep(node, arrays=(*node.arrays, node.arrays[-1]))))
+        if len(node.arrays) >= 2:
+            out.append(("arrays", lambda: rep(node, arrays=node.arrays[:-1])))
         if isinstance(node, Stack) or node.ndim > 1:
             nax = node.ndim
             if nax > 1:
